@@ -3,37 +3,46 @@ package auto
 import (
 	"go.pennock.tech/tabular"
 	"go.pennock.tech/tabular/csv"
+	"go.pennock.tech/tabular/html"
 	"go.pennock.tech/tabular/json"
 	"go.pennock.tech/tabular/markdown"
 	"go.pennock.tech/tabular/texttable"
 )
 
-func vfBuildAndRender(create, format int, a string) (string, bool) {
+const vfWide = "0123456789012345678901234567890123456789012345678901234567890123456789012345678901234567890"
+
+// vfScenario builds a small table through one creation path and renders it in one format:
+// 0 core+csv, 1 csv.New+json, 2 texttable.New+markdown, 3 markdown.New+text, 4 auto utf8-light,
+// 5 auto none, 6 auto html, 7 html wrapper with a named template, 8 text table with a very wide column
+func vfScenario(sc int, a string) (string, bool) {
 	var t tabular.Table
-	switch create {
-	case 0:
-		t = tabular.New()
+	switch sc {
 	case 1:
 		t = csv.New()
 	case 2:
 		t = texttable.New()
 	case 3:
 		t = markdown.New()
+	default:
+		t = tabular.New()
 	}
 	t.AddHeaders("h1", "h2")
+	if sc == 8 {
+		t.AddRowItems(vfWide, "w")
+	}
 	t.AddRowItems(a, "x")
 	t.AddSeparator()
 	t.AddRowItems("y")
 	var out string
 	var err error
-	switch format {
+	switch sc {
 	case 0:
 		out, err = csv.Render(t)
 	case 1:
 		out, err = json.Render(t)
 	case 2:
 		out, err = markdown.Render(t)
-	case 3:
+	case 3, 8:
 		out, err = texttable.Render(t)
 	case 4:
 		out, err = Render(t, "utf8-light")
@@ -41,31 +50,33 @@ func vfBuildAndRender(create, format int, a string) (string, bool) {
 		out, err = Render(t, "none")
 	case 6:
 		out, err = Render(t, "html")
+	case 7:
+		ht := html.Wrap(t)
+		ht.TemplateName = "shared-name"
+		out, err = ht.Render()
 	}
 	return out, err != nil
 }
 
 // VerifC16_independent: goroutines that each own their table and wrappers, in any formats and
 // decorations, with the registry being read concurrently: no data race, and each output equals
-// what the same table produces alone.
+// what the same table produces alone. Schedules are explored at synchronisation points.
 func VerifC16_independent() {
 	a1 := vfString("a1", 1, vfTXT)
 	a2 := vfString("a2", 1, vfTXT)
-	nc := 2
+	s1 := vfChoice("scenario1", 9)
+	s2 := 0
 	if vfTier() == 1 {
-		nc = 4
-	}
-	c1, f1 := vfChoice("create1", nc)*(5-nc), vfChoice("format1", 7)
-	c2, f2 := 0, vfChoice("format2", 7)
-	if vfTier() == 1 {
-		c2 = vfChoice("create2", 4)
+		s2 = vfChoice("scenario2", 9)
+	} else {
+		s2 = []int{3, 6, 7, 8}[vfChoice("scenario2", 4)]
 	}
 	var o1, o2 string
 	var e1, e2 bool
 	var styles []string
 	bodies := []func(){
-		func() { o1, e1 = vfBuildAndRender(c1, f1, a1) },
-		func() { o2, e2 = vfBuildAndRender(c2, f2, a2) },
+		func() { o1, e1 = vfScenario(s1, a1) },
+		func() { o2, e2 = vfScenario(s2, a2) },
 		func() { styles = ListStyles() },
 	}
 	nb := 2
@@ -73,13 +84,11 @@ func VerifC16_independent() {
 		nb = 3
 	}
 	vfPar(bodies[:nb]...)
-	s1, se1 := vfBuildAndRender(c1, f1, a1)
-	s2, se2 := vfBuildAndRender(c2, f2, a2)
-	vfAssert(vfAnd(o1 == s1, e1 == se1), "output-equals-solo-output")
-	vfAssert(vfAnd(o2 == s2, e2 == se2), "output-equals-solo-output")
+	w1, we1 := vfScenario(s1, a1)
+	w2, we2 := vfScenario(s2, a2)
+	vfAssert(vfAnd(o1 == w1, e1 == we1), "output-equals-solo-output")
+	vfAssert(vfAnd(o2 == w2, e2 == we2), "output-equals-solo-output")
 	if nb == 3 {
 		vfAssert(len(styles) >= 10, "registry-read-concurrently")
 	}
-	vfObserveStr("o1", o1)
-	vfObserveStr("o2", o2)
 }
